@@ -8,6 +8,10 @@ CL = {
          "floats as exact reals; shape/knot/layer bounds in evidence; parameters range over the representation invariant proved in C11; flows' bijections and MAF inverse-direction in thorough tier only"),
  "C02": (E1, "exp(reported log-det) == |det J| with J interpreted from the jaxpr of jax.jacfwd(transform) (independent oracle), inverse log-det == -forward log-det at the inverse image, scalar avals; z3 per domain case",
          "floats as exact reals; one-sided Jacobian oracle at the spline interval ends (autodiff tie convention); bounds in evidence"),
+ "C07": (E1, "the traced transform of every elementary bijection is proved equal (z3, per domain case) to reference formulas written from the documentation / cited papers (affine, triangle of the given matrix, exp/softplus/tanh, leaky-tanh tangent line, all permutations, planar with the constrained u, eq. 4 of the spline paper per bin, knots, derivative at knots, monotonicity, identity outside / at initialisation); constructors traced with symbolic arguments",
+         "floats as exact reals; K=1 (quick) / K<=3 (thorough); LeakyTanh constructor constants validated numerically (1e-12) for 5 values of max_val; Permute enumerated over all permutations of <=4 elements"),
+ "C15": (E2, "the real fit_to_data / train_val_split / get_batches / _add_batch run on fake arrays whose rows are symbolic tags; jax.random.permutation is an uninterpreted bijection per (key, length); z3 proves partition, x/condition pairing, at-most-once use, trailing-remainder-only skipping, no validation leakage, fresh keys and reproducibility for ALL permutations; failures replayed on the real fit_to_data with host callbacks",
+         "sizes enumerated (n<=8 quick, n<=14 thorough); contract of jr.permutation / jr.split as stated; list-backed fake arrays"),
  "C13": (E2, "the real argument-check wrapper, distribution shape check and constructors are executed on symbolic shapes by a re-execution symbolic executor; z3 proves on every path: raises <=> documented mismatch; MRO closure over all concrete classes; avals of traced methods",
          "stubs: arraylike_to_array/unwrap identity on fake arrays; rank <= 3; Partial index check enumerated concretely"),
  "C16": (E2, "the real fit_to_data / fit_to_variational_target bodies run on symbolic loss histories (all orderings of L distinct reals are one query set), symbolic max_patience / max_epochs / steps; z3 proves the documented stopping epoch, loss bookkeeping and returned parameters on every path; counterexamples replayed on the real loops with real jax/optax",
